@@ -312,8 +312,12 @@ func (P) Generate(g *hx.Gen) {
 		c.vals = mkVals(g, n, ps, mismatch)
 		tag := fmt.Sprint("A", k)
 		c.bids = []bidT{mkBid(g, tag+"a"), mkBid(g, tag+"b"), nilBid}
-		if g.Rng.Intn(4) == 0 { // a block id that differs from the first only in the part-set header
+		switch g.Rng.Intn(6) { // a block id that differs from the first only in the part-set header: its total, or only its hash
+		case 0:
 			c.bids[1] = bidT{c.bids[0].hash, c.bids[0].total + 1, c.bids[0].phash}
+		case 1:
+			c.bids[1] = bidT{c.bids[0].hash, c.bids[0].total, hashOf("other-parts-" + tag)}
+			g.Count("bids-differ-in-parts-hash-only")
 		}
 		vsChain := c.chain
 		if g.Rng.Intn(25) == 0 {
